@@ -1,9 +1,14 @@
 (* C04  What `safeb` means: the crash images accepted by the extracted checker have no under-counted host cluster
    at all (leaks are allowed).  That every crash state of the LIBRARY is accepted is explored (checks/crash.py:
-   prefix x subsets / tearing of un-synced requests), not proved. *)
+   prefix x subsets / tearing of un-synced requests) and, for the refcount >= references part, lifted to EVERY
+   subset of EVERY prefix of a request log by the discipline theorem below: the check decodes the library's request
+   log into cell writes (lib/cells.py, tied to the images at each sync point), runs the extracted `disciplined` on
+   it, and searches for a concrete unsafe crash image when it answers false. *)
 From Coq Require Import NArith List Bool.
+Import ListNotations.
 From Q.Spec Require Import Entries Image.
-From Q.Proofs Require Import SpecProps.
+From Q.Proofs Require Import SpecProps CrashProps.
+From Q.Model Require Crash.
 Open Scope N_scope.
 
 Theorem C04_checker_sound : forall rd h,
@@ -11,3 +16,12 @@ Theorem C04_checker_sound : forall rd h,
 Proof. exact safeb_sound. Qed.
 
 Print Assumptions C04_checker_sound.
+
+(* all crash states (any prefix k of the log, any subset m of the writes pending there) of a disciplined log *)
+Theorem C04_disciplined_log_every_crash_state_safe : forall dom s evs,
+  Crash.disciplined dom s evs = true ->
+  forall k m, let st := Crash.crun s [] (firstn k evs) in
+  Crash.safe dom (Crash.apply_masked (fst st) (snd st) m).
+Proof. exact disciplined_all_crash_states_safe. Qed.
+
+Print Assumptions C04_disciplined_log_every_crash_state_safe.
